@@ -286,3 +286,10 @@ PROP.rule += (" pool-timeout layer: 1-2 holders keep every connection of the poo
               "with pool timeout in {0, 0.5, 1, 2.5, 7, None}; virtual-clock advances of 0.3-5 s, timer firings, releases and starts are scheduler choices. "
               "Oracle: PoolTimeout exactly at t0+p (+-1 ms of virtual time), never after a network op of that request, a served waiter got its connection no "
               "later than t0+p, the pool forgets every finished request. Non-trivial: a waiter timed out or actually waited.")
+
+from .real import layer_for as _real_layer  # noqa: E402
+
+PROP.layers.append(_real_layer("C16", {"quick": 240, "thorough": 5000}))
+PROP.rule += (" real-backends layer: the same timeouts through httpcore's own sync / anyio / trio backends over loopback sockets against a peer that goes "
+              "silent (after N response bytes, during the TLS handshake, never completing the TCP connect, or no longer reading a 3 MB upload): the request "
+              "must fail with the matching ReadTimeout / ConnectTimeout / WriteTimeout, never before the configured 0.06 s.")
